@@ -34,6 +34,24 @@ func (c *OrgCase) sourceAt(org int64) string {
 	return strings.ReplaceAll(s, orgPlaceholder, fmt.Sprintf("0x%x", o+int64(c.K)))
 }
 
+// immLenAfterModRM: bytes of immediate at the end of a ModR/M instruction (group-1 ALU, MOV imm, shifts).
+func immLenAfterModRM(b []byte, dataSize int) int {
+	i := 0
+	for i < len(b) && (b[i] == 0x66 || b[i] == 0x67) {
+		i++
+	}
+	if i >= len(b) {
+		return 0
+	}
+	switch b[i] {
+	case 0x80, 0x82, 0x83, 0xc0, 0xc1, 0xc6, 0x6b:
+		return 1
+	case 0x81, 0xc7, 0x69:
+		return dataSize / 8
+	}
+	return 0
+}
+
 func checkC16(c OrgCase) Verdict {
 	s1, s2 := c.sourceAt(c.P.Org), c.sourceAt(c.Org2)
 	v := Verdict{Key: s1 + "\x00" + s2}
@@ -145,18 +163,8 @@ func checkC16(c OrgCase) Verdict {
 				return fail("decode", "%q decodes differently at the two origins (%v / %v)", it.Text, err1, err2)
 			}
 			w := ia.AddrSize / 8
-			// an immediate follows the address in "OP BYTE [label],imm" (one byte) and "OP WORD [label],imm16" (two)
-			immLen := 0
-			for _, ar := range ia.Args {
-				if _, ok := ar.(x86asm.Imm); ok {
-					switch {
-					case strings.Contains(it.Text, "BYTE"):
-						immLen = 1
-					case strings.Contains(it.Text, "WORD"):
-						immLen = 2
-					}
-				}
-			}
+			// an immediate may follow the address: its length is given by the opcode
+			immLen := immLenAfterModRM(a[o:o+ia.Len], ia.DataSize)
 			if f := field(o+ia.Len-immLen-w, w, "insn "+it.Text); f != nil {
 				return *f
 			}
